@@ -5,7 +5,7 @@ import math
 import numpy as np
 from hypothesis import strategies as st
 
-from vp.runner import Part
+from vp.runner import Part, time_limit, CaseTimeout
 from vp.gen import models, families as fam
 from vp.oracles import refmodel, refint, formulas as F, statbounds as sb
 from vp import build
@@ -23,12 +23,13 @@ RULE = (
 )
 ASSUMPTIONS = [
     "reference conditional pdf/cdf/icdf are the documented formulas (C05 decides them against virocon)",
-    "model.cdf costs seconds (2-D) to minutes (3-D) per point: quick explores 2-D points only, thorough a few 3-D points",
+    "model.cdf costs seconds (2-D) to minutes (3-D) per point: quick explores 2-D points only, thorough a few 3-D points; a single quadrature call of the code under test that exceeds 45 s wall clock is abandoned and counted as inconclusive (class timeout:*)",
     "quadrature references: scipy.integrate.quad panel-wise between reference quantiles, accepted error <= 1e-7",
     "marginal_icdf of a conditional variable is Monte-Carlo (global numpy RNG, seeded by the harness): judged by the order-statistic Beta interval at the sample size the code documents",
 ]
 
 NONNEG = ["Weibull", "LogNormal", "ExponentiatedWeibull", "GeneralizedGamma", "LogNormalNormFit"]
+CALL_BUDGET_S = 45  # wall-clock budget of one virocon quadrature call; exceeding it is inconclusive (counted), never a violation
 
 
 def nonneg_model(n_dims):
@@ -212,7 +213,12 @@ def check_cdf(case, ctx):
         return
     model = build.model(spec)
     arg = [float(v) for v in x] if case.get("as_list") else x.copy()
-    ok, got = ctx.call("cdf", model.cdf, arg)
+    try:
+        with time_limit(CALL_BUDGET_S):
+            ok, got = ctx.call("cdf", model.cdf, arg)
+    except CaseTimeout:
+        ctx.cls("timeout:cdf")
+        return
     if not ok:
         return
     got = np.asarray(got, dtype=float)
@@ -278,14 +284,24 @@ def check_marg(case, ctx):
                 continue
         else:
             rp, rc = refs_pdf, refs_cdf
-        ok, got = ctx.call(f"marginal_pdf:{label}", model.marginal_pdf, arg, dim)
+        try:
+            with time_limit(CALL_BUDGET_S):
+                ok, got = ctx.call(f"marginal_pdf:{label}", model.marginal_pdf, arg, dim)
+        except CaseTimeout:
+            ctx.cls("timeout:marginal_pdf")
+            return
         if ok:
             got = np.asarray(got, dtype=float)
             if got.shape != rp.shape or not close(got, rp, 1e-5, 1e-7).all():
                 ctx.violation(f"marginal_pdf:{label}:{'cond' if conditional else 'uncond'}", f"dim={dim} x={np.asarray(arg).tolist()} got={got.tolist()} reference={rp.tolist()} conditional_on={[l.get('conditional_on') for l in spec]}")
         if label == "int":
             continue  # marginal_cdf costs seconds per point: one float point only
-        ok, got = ctx.call(f"marginal_cdf:{label}", model.marginal_cdf, arg[:1], dim)
+        try:
+            with time_limit(CALL_BUDGET_S):
+                ok, got = ctx.call(f"marginal_cdf:{label}", model.marginal_cdf, arg[:1], dim)
+        except CaseTimeout:
+            ctx.cls("timeout:marginal_cdf")
+            return
         if ok:
             got = np.asarray(got, dtype=float)
             if got.shape != rc[:1].shape or not close(got, rc[:1], 1e-5, 2e-6).all():
